@@ -25,6 +25,8 @@ type TrieOp struct {
 	Scribble bool   `json:"scribble,omitempty"` // overwrite the caller's buffer right after the call returned
 	Reuse    bool   `json:"reuse,omitempty"`    // the argument is passed in the caller's one long-lived buffer (as a loop over a read buffer does)
 	Nested   int    `json:"nested,omitempty"`   // k>0: after the step, a ForEach nested in the callback of another at member k-1
+	PanicAt  int    `json:"panic_at,omitempty"` // k>0: after the step, a ForEach whose callback panics at member k-1; the caller recovers
+	Quiet    bool   `json:"quiet,omitempty"`    // no observation after this step (correctness must not depend on being observed)
 	N        int    `json:"n,omitempty"`        // churn: how many filler sequences are added and deleted again
 }
 
@@ -60,6 +62,12 @@ func (t *TrieCase) String() string {
 		}
 		if o.Nested > 0 {
 			fmt.Fprintf(&b, "^%d", o.Nested)
+		}
+		if o.PanicAt > 0 {
+			fmt.Fprintf(&b, "!%d", o.PanicAt)
+		}
+		if o.Quiet {
+			b.WriteString("?")
 		}
 		if o.Scribble {
 			b.WriteString("~")
@@ -434,6 +442,29 @@ func execC15Trace(c *Case, tr *trieTrace) (v *Verdict) {
 		default:
 			panic("bad trie op " + op.Op)
 		}
+		if op.PanicAt > 0 {
+			// a callback that panics; the caller recovers and carries on with the same trie
+			func() {
+				defer func() { recover() }()
+				n := 0
+				t.ForEach(func([]byte) bool {
+					n++
+					if n == op.PanicAt {
+						panic("consumer panic")
+					}
+					return n <= len(m)+1000
+				})
+			}()
+			if tr != nil {
+				tr.probes.Inc("fault_fired/foreach_callback_panicked_and_was_recovered")
+			}
+		}
+		if op.Quiet && i != len(tc.Ops)-1 {
+			if tr != nil {
+				tr.probes.Inc("fault_fired/step_left_unobserved")
+			}
+			continue
+		}
 		if v := observeTrie(t, m, uni, i, op.Op); v != nil {
 			return v
 		}
@@ -505,6 +536,20 @@ func shrinkTrie(c *Case, try func(*Case) bool) bool {
 				any = true
 			}
 		}
+		if c.Trie.Ops[i].PanicAt > 0 {
+			d := c.Clone()
+			d.Trie.Ops[i].PanicAt = 0
+			if try(d) {
+				any = true
+			}
+		}
+		if c.Trie.Ops[i].Quiet {
+			d := c.Clone()
+			d.Trie.Ops[i].Quiet = false
+			if try(d) {
+				any = true
+			}
+		}
 	}
 	if c.Trie.KeyOrder != nil && c.Trie.KeyOrder.Mode != "sorted" {
 		d := c.Clone()
@@ -559,6 +604,13 @@ func genTrieCase(r *core.Rng, depth int) *TrieCase {
 	if r.Chance(0.3) {
 		pNested = 0.3
 	}
+	pPanic, pQuiet := 0.0, 0.0
+	if r.Chance(0.15) {
+		pPanic = 0.2
+	}
+	if r.Chance(0.3) {
+		pQuiet = 0.3 + 0.5*r.Float64()
+	}
 	var words [][]byte
 	n := r.Range(1, depth)
 	for i := 0; i < n; i++ {
@@ -600,6 +652,10 @@ func genTrieCase(r *core.Rng, depth int) *TrieCase {
 			if r.Chance(pNested) {
 				o.Nested = 1 + r.Intn(4)
 			}
+			if r.Chance(pPanic) {
+				o.PanicAt = 1 + r.Intn(3)
+			}
+			o.Quiet = r.Chance(pQuiet)
 			tc.Ops = append(tc.Ops, o)
 			if churn && r.Chance(0.25) {
 				tc.Ops = append(tc.Ops, TrieOp{Op: "churn", N: core.Pick(r, []int{255, 256, 257, 65535, 65536, 65536, 65537})})
